@@ -25,7 +25,7 @@ PROPS = {
             'technique': 'Verus: derived table denotations == reference table cell by cell (3x256) + automaton postcondition and invariant on the real ScancodeSet1::advance_state + sequence lemmas + verified clients'},
     'C03': {'needs_invariants': False, 'denotations': 'layouts', 'lemmas': [], 'support_lemmas': ['ldefs'], 'cellgens': ['c03_cells'], 'assume': BASE + [A_CHAR, A_PRED, A_KANI, A_REF_LAY], 'kani': ['char_from_u8_is_cast', 'predicates_equal_copies'], 'design': 'DESIGN.md section 3, C03',
             'technique': 'Verus lemmas per (layout, key, level) against reference tables of the national layouts, for every modifier state and mode selecting the level, over the derived layout denotations'},
-    'C04': {'kani_scenarios': ['events'], 'lemmas': ['c04'], 'assume': BASE + [A_PRIV], 'kani': [], 'design': 'DESIGN.md section 3, C04',
+    'C04': {'kani_scenarios': ['events_mods'], 'lemmas': ['c04'], 'assume': BASE + [A_PRIV], 'kani': [], 'design': 'DESIGN.md section 3, C04',
             'technique': 'Verus postcondition mods\' == mods_step(mods, ev) on the real process_keyevent + induction lemma over Seq<KeyEvent> + verified clients'},
     'C05': {'kani_scenarios': ['word'], 'lemmas': ['c05'], 'assume': BASE + [A_COUNT, A_KANI], 'kani': ['count_ones_is_bit_sum'], 'design': 'DESIGN.md section 3, C05',
             'technique': 'Verus postcondition r == frame_ref(word) on the real check_word/add_word + bit-vector lemmas (round trip, single-bit corruption); Kani discharges the count_ones assumption'},
@@ -50,7 +50,7 @@ PROPS = {
             'technique': 'Verus lemmas per (layout, key): 52 character-less keys raw in every state; raw results are the key itself or its NumLock-off alias, over the derived layout denotations'},
     'C13': {'denotations': 'tables', 'lemmas': ['c13'], 'cellgens': ['xlat_cells'], 'assume': BASE + [A_PRIV, A_REF_XL], 'kani': [], 'design': 'DESIGN.md section 3, C13',
             'technique': 'Verus lemmas relating the derived denotations of the six real tables through the i8042 translation table (forward, and backward via a verified inverse map) + event-level lemma over the two automaton contracts + verified client'},
-    'C14': {'kani_scenarios': ['events'], 'lemmas': ['c14'], 'assume': BASE + [A_PRIV], 'kani': [], 'design': 'DESIGN.md section 3, C14',
+    'C14': {'kani_scenarios': ['events_decode'], 'lemmas': ['c14'], 'assume': BASE + [A_PRIV], 'kani': [], 'design': 'DESIGN.md section 3, C14',
             'technique': 'Verus postcondition r == decode_out(layout, mods, mode, ev) on the real process_keyevent, generic in the layout via a ghost trait member + verified clients for mode/layout changes'},
     'C19': {'denotations': 'tables', 'lemmas': ['c19'], 'cellgens': ['injectivity'], 'assume': BASE + [A_PRIV], 'kani': [], 'design': 'DESIGN.md section 3, C19',
             'technique': 'Verus: injectivity of the six derived table denotations via verified inverse maps (hint from the real code, checked by Verus); make/break pairing lemmas over the automaton contracts + verified clients'},
